@@ -28,6 +28,7 @@ def run(ctx):
     ctx.rule('R15.2', 'recursion containment: no call in an entry point, other than consuming stack.run(...), reaches a recursive function', floor=8)
     ctx.rule('R15.3', 'the str(stmt) exception in split is justified: no grouping and no group-building filter on that stack', floor=1)
     ctx.rule('R15.5', 'a tree that parse() returns can be serialised at any depth: str()/flatten() of a statement reach no recursive function', floor=2)
+    ctx.rule('R15.6', 'recursive accessors of the tree classes use one frame per tree level', floor=1)
     ctx.rule('R15.4', 'the package never changes interpreter-wide limits (recursion limit, thread stack size, resource limits)', floor=1)
     repo = ctx.repo
     cg = get_cg(ctx)
@@ -138,6 +139,36 @@ def run(ctx):
                f'reaches recursive {hit[0].replace("sqlparse.", "") if hit else ""} via {" -> ".join(x.replace("sqlparse.", "") for x in (path or []))}: '
                'parse() can return a statement (e.g. f(a, f(a, ...)) nested ~400 deep at the default limit) whose str()/flatten() raises '
                'RecursionError in the caller\'s code, outside FilterStack.run\'s translation')
+    # R15.6: recursive accessors of the tree classes run in the caller's code, outside run's try.  Grouping descends one Python
+    # frame per tree level; an accessor that needs two (A -> B -> A per level) overflows on trees parse() has just accepted.
+    ref_clusters = [{'sql.NameAliasMixin.get_alias', 'sql.NameAliasMixin.get_real_name', 'sql.TokenList._get_first_name', 'sql.TokenList.get_name'},
+                    {'sql.Token.__repr__', 'sql.Token._get_repr_name', 'sql.Token._get_repr_value'}]
+    nscc = 0
+    for g in cg.sccs():
+        if not (len(g) > 1 or g[0] in cg.edges[g[0]]):
+            continue
+        names = {x.replace('sqlparse.', '') for x in g}
+        if not all(n.startswith('sql.') for n in names):
+            continue
+        # only recursion that follows the tree: some member iterates over child tokens
+        def walks(q):
+            fn_ = repo.funcs[q]
+            for n_ in own_nodes(fn_.node):
+                if isinstance(n_, (ast.For, ast.comprehension)):
+                    t_ = src(n_.iter)
+                    if 'tokens' in t_ or 'get_sublists' in t_ or 'flatten' in t_ or 'get_identifiers' in t_:
+                        return True
+            return False
+        if not any(walks(q) for q in g):
+            continue
+        nscc += 1
+        ok = len(names) == 1 or any(names <= c for c in ref_clusters)
+        fn = repo.funcs[sorted(g)[0]]
+        ctx.ob('R15.6', f'cycle:{sorted(names)[0]}', f'{fn.mod.relpath}:{fn.node.lineno}',
+               f'recursive accessor(s) {sorted(names)} descend one frame per tree level (self-recursion), like the grouping passes', ok,
+               f'the recursion runs through {len(names)} functions per tree level ({sorted(names)}): on a tree as deep as grouping can build '
+               '(about 990 levels at the default limit) the accessor raises RecursionError in the caller\'s code, outside FilterStack.run')
+    ctx.need(nscc >= 1, f'only {nscc} recursive accessor cycles found in sqlparse.sql: call-graph resolution lost them')
     # the entry points must consume run (sanity)
     for q in ENTRY[:4]:
         reach = cg.reachable([q])
